@@ -50,6 +50,7 @@ def tok? (w : String) : Option Tok :=
     | "BOOLEAN" => pure { k := .bool lit, nl }
     | "NULL" => pure { k := .null, nl }
     | "KEYWORD" => pure { k := .kw lit, nl }
+    | "REGEX" => pure { k := .regex lit, nl }
     | "ILLEGAL" => pure { k := .illegal, nl }
     | _ => none
   | [k] =>
@@ -187,11 +188,44 @@ def handleAsi (nlbits stmts toks : String) : String :=
     flagStr (Asi.modelFlags false pairs) ++ "/accept:" ++ stmts ++ " " ++ flagStr (Asi.specFlags false pairs) ++ "/accept:" ++ stmts ++ " -"
   | none => "bad-request bad-request -"
 
+/-- asire <nlbits> <statements> <parser-level tokens> <srchex>: programs whose first statement ends in a regular expression
+    literal.  The tokens are the PARSER's (the literal is one token, kind REGEX), assembled by the generator; the verdict is
+    `accept:<statements>` iff every line terminator that must act as a semicolon gets the flag.
+    Region `regexp_flags_detached`: a literal without flags followed (after white space / a line terminator) by an identifier. -/
+def handleAsiRe (nlbits stmts toks : String) : String :=
+  match toks? toks with
+  | some ts =>
+    let nls := nlbits.toList.map (· == '1')
+    if nls.length != ts.length then "bad-nlbits bad-nlbits -" else
+    let pairs := (ts.map (·.k)).zip nls
+    let need := nls.zip (ts.map (·.k)) |>.map fun (nl, k) => nl && k != .eof
+    let ok (fs : List Bool) : Bool := (need.zip fs).all fun (n, f) => !n || f
+    let verdict (b : Bool) := if b then "accept:" ++ stmts else "reject"
+    let rec detached : List Tk → Bool
+      | .regex s :: .id i :: r => s.endsWith "/" || detached (.id i :: r)
+      | _ :: r => detached r
+      | [] => false
+    -- inside the region the model follows parseRegExpLiteral (expression.go:137): the identifier is taken as the flags, so
+    -- the second statement loses its first token: a lone identifier disappears (one statement), anything longer no longer
+    -- parses (`/a/y = 2`)
+    let rec afterSwallow : List Tk → Option Nat
+      | .regex s :: .id _ :: r => if s.endsWith "/" then some (r.length - 1) else afterSwallow r
+      | _ :: r => afterSwallow r
+      | [] => none
+    let model := match afterSwallow (ts.map (·.k)) with
+      | some 0 => "accept:1"
+      | some _ => "reject"
+      | none => verdict (ok (Asi.modelFlags false pairs))
+    model ++ " " ++ verdict (ok (Asi.specFlags false pairs)) ++ " " ++
+      (if detached (ts.map (·.k)) then "regexp_flags_detached" else "-")
+  | none => "bad-request bad-request -"
+
 def handle (ws : List String) : String :=
   match ws with
   | ["expr", mode, tree, _src, toks] => handleExpr mode tree toks
   | ["asi", nlbits, stmts, _src, toks] => handleAsi nlbits stmts toks
   | ["noin", form, tree, _src, toks] => handleNoIn form tree toks
+  | ["asire", nlbits, stmts, toks, _src] => handleAsiRe nlbits stmts toks
   | "num" :: rest => Lit.handleNum rest
   | "str" :: rest => Lit.handleStr rest
   | _ => "bad-op bad-op -"
